@@ -236,6 +236,12 @@ def job(args):
         except Exception as e:
             res["model_exception"] = "transformed run: %s: %s" % (type(e).__name__, str(e)[:200])
             return res
+        import hashlib
+        hsh = hashlib.sha1()
+        for nm in ("water_flux", "water_storage", "crop_growth"):
+            hsh.update(np.ascontiguousarray(tabs[nm]).tobytes())
+        hsh.update(repr(fs.values.tolist()).encode())
+        res["digest"] = hsh.hexdigest()
         diffs = []
         for nm in ("water_flux", "water_storage", "crop_growth"):
             A, Bm = btabs[nm], tabs[nm]
@@ -317,10 +323,10 @@ def main():
         # group jobs of one base together so the per-process base cache is effective
         with Pool(a.procs) as pool:
             results = pool.map(job, jobs, chunksize=4)
-        single_fail = set()
+        single_fail = {}
         for r in results:
             if r["diff"] and len(r["tids"]) == 1:
-                single_fail.add((r["base"], r["variant"], r["tids"][0]))
+                single_fail[(r["base"], r["variant"], r["tids"][0])] = r.get("digest")
         sigs = {}
         basefacts = {}
         good = []
@@ -344,7 +350,10 @@ def main():
                 if len(r["tids"]) != npass or not r["diff"]:
                     continue
                 tids = r["tids"]
-                culprits = [t for t in tids if (r["base"], r["variant"], t) in single_fail] if npass == 2 else []
+                # a differing pair is attributed to a member that already differs alone on this base only if the pair's
+                # outputs are bit-identical to that member's own outputs (the other member is inert next to it)
+                culprits = [t for t in tids if single_fail.get((r["base"], r["variant"], t)) == r.get("digest")] \
+                    if npass == 2 else []
                 if culprits:
                     # explained by a member that already fails alone on this base: attributed to it
                     for t in culprits:
@@ -371,8 +380,8 @@ def main():
                            "value behaves as off", "D": "stating the default harvest date explicitly gives the same results"
                            }.get(T[e["tids"][0]]["kind"]) + (" (in combination)" if len(e["tids"]) > 1 else "") + " [%s]" % kind,
                 "detail": "differs from the base run on base(s) %s; first differing row %s, columns %s, e.g. %s base=%r "
-                          "transformed=%r; differing cells / max abs diff per table %s; summary diffs %s; %d further pair(s) "
-                          "containing this transformation also differ and are attributed to it; base facts %s"
+                          "transformed=%r; differing cells / max abs diff per table %s; summary diffs %s; %d pair(s) "
+                          "containing this transformation give outputs bit-identical to it alone and are attributed to it; base facts %s"
                           % (e["bases"], d["first_row"], d["first_cols"], d["first"][1], d["first"][2], d["first"][3],
                              d["cells"], d["summary"], e["pairs_explained"],
                              {b: basefacts.get(b) for b in e["bases"][:3]}),
